@@ -15,24 +15,24 @@ def build(tier):
     conds = []
     T = 300 if q else 1800
     # number of loop iterations each script needs on the current tree (measured natively at build time)
-    iters = [L.run(si, 0, 0, True, measure=True) for si in range(len(L.SCRIPTS))]
+    # (script, backend latency): latency 0 = backend calls never suspend (MemoryPathIO), > 0 = they do (AsyncPathIO timing), so the
+    # cut can fall INSIDE a backend call of a worker
+    combos = [(1, 0), (5, 1)] if q else [(si, 0) for si in range(len(L.SCRIPTS))] + [(1, 1), (4, 1), (5, 1), (5, 2)]
+    iters = {(si, lat): L.run(si, 0, 0, True, measure=True, lat=lat) for si, lat in combos}
     chunk = 12 if q else 20
-    scripts = [1, 2] if q else list(range(len(L.SCRIPTS)))
-    for si in scripts:
-        n = iters[si] + 6
+    for si, lat in combos:
+        n = iters[(si, lat)] + 6
+        first = 36 if (q and si == 5) else 0  # quick: the login prefix is the same in every script
         for ci, cut in enumerate(L.CUTS):
-            for pool in ((True,) if q else (False, True)):
-                lo = 0
+            for pool in ((True,) if (q or lat) else (False, True)):
+                lo = first
                 while lo <= n:
                     hi = min(lo + chunk - 1, n)
-                    if q and si == 4 and (hi < 30 or cut == "vanish"):
-                        lo = hi + 1
-                        continue  # quick: the login prefix is the same in every script; list only with vanish, mixed only with close
-                    name = f"cut_s{si}_{cut}_{'pool' if pool else 'nopool'}_{lo:03d}"
-                    src += hgen.cond(name, "k: int", [f"{lo} <= k <= {hi}"], f"L.run({si}, {ci}, k, {pool})", sig="hb.KEY")
+                    name = f"cut_s{si}{'_lat%d' % lat if lat else ''}_{cut}_{'pool' if pool else 'nopool'}_{lo:03d}"
+                    src += hgen.cond(name, "k: int", [f"{lo} <= k <= {hi}"], f"L.run({si}, {ci}, k, {pool}, False, {lat})", sig="hb.KEY")
                     conds.append(Cond(name, "prop", T, group=cut))
-                    if lo == 0 or (q and si == 4 and lo <= 36):
-                        conds.append(Cond(name + "__twin", "twin", 90, group=cut))  # one reachability twin per (script, cut, pool)
+                    if lo == first:
+                        conds.append(Cond(name + "__twin", "twin", 90, group=cut))  # one reachability twin per (script, latency, cut, pool)
                     lo = hi + 1
     src += "\nfor _s in range(len(L.SCRIPTS)):\n    L.run(_s, 0, 33, True); L.run(_s, 1, 40, False)\n"
     S = aioftp.Server
@@ -41,8 +41,8 @@ def build(tier):
         functions_encoded=[S.dispatcher, S.close, S.start, S._start_passive_server, S._start_server, U(S.pasv), U(S.epsv), aioftp.server.worker,
                            pathio.AsyncPathIOContext.__aexit__, aioftp.ThrottleStreamIO.__aexit__, aioftp.StreamIO.close],
         bounds={
-            "scripts": f"real aioftp.Client sessions over SimNet: {[f.__name__ for i, f in enumerate(L.SCRIPTS) if i in scripts]} (listing, upload, download, directory operations, stat + append at an offset + PASV/EPSV)",
-            "cut": f"at event-loop iteration k after the client started, k symbolic over the whole run of each script (measured on the current tree: {dict((L.SCRIPTS[i].__name__, iters[i] + 6) for i in scripts)} iterations): "
+            "scripts": f"real aioftp.Client sessions over SimNet, (script, backend latency in virtual ms per backend call): {[(L.SCRIPTS[si].__name__, lat) for si, lat in combos]} (listing, upload, download, directory operations, stat + append at an offset + PASV/EPSV, restarted upload + restarted download)",
+            "cut": f"at event-loop iteration k after the client started, k symbolic over the whole run of each script (measured on the current tree: {dict(((L.SCRIPTS[si].__name__, lat), n + 6) for (si, lat), n in iters.items())} iterations): "
                    "every client transport vanishes, or Server.close() is called, or only the control connection is reset while a command is still unread (ctrl_reset); with and without a restricted data-port pool" + (" (quick: with pool)" if q else ""),
         },
         outside=["two or more sessions cut at the same instant", "TLS shutdown", "real file descriptors (the ledger is the simulated network's and the spy backend's)", "cut points inside a single callback (atomic in asyncio)"],
